@@ -93,7 +93,8 @@ def build_engine(engine, config):
     os.makedirs(out, exist_ok=True)
     kdir = os.path.join(VERIF, 'sim', 'kernel')
     edir = os.path.join(VERIF, 'sim', engine)
-    inc = f'-I{kdir} -I{REPO}/include -I{REPO}/src -D{GUARD} {hdef}'
+    cdir = os.path.join(VERIF, 'sim', 'common')
+    inc = f'-I{kdir} -I{cdir} -I{REPO}/include -I{REPO}/src -D{GUARD} {hdef}'
     # uninstrumented kernel parts
     plainflags = f'-O1 -g -fno-omit-frame-pointer {inc} -Wall -Wno-unused-function'
     instflags = f'{cflags} {inc} -Wall -Wno-unused-function -Wno-unused-variable'
@@ -106,6 +107,9 @@ def build_engine(engine, config):
     for f in ('simk.c', 'wipe.c'):
         o = os.path.join(out, 'k_' + f[:-2] + '.o')
         jobs.append((os.path.join(kdir, f), o, instflags)); objs.append(o)
+    for f in spec.get('common_sources', ()):
+        o = os.path.join(out, 'c_' + f[:-2] + '.o')
+        jobs.append((os.path.join(cdir, f), o, instflags)); objs.append(o)
     for f in spec['sources']:
         o = os.path.join(out, 'e_' + f[:-2] + '.o')
         jobs.append((os.path.join(edir, f), o, instflags)); objs.append(o)
